@@ -489,6 +489,9 @@ fn outside_domain(specs: &[Vec<u8>]) -> Option<&'static str> {
     {
         return Some("exclude pathspec outside git's common prefix (git compares only what follows the prefix length, or reads past the end of the pattern)");
     }
+    if max > 0 && parsed.iter().any(|p| !p.attributes.is_empty()) {
+        return Some("attr: pathspec with a common directory prefix (git 2.39 looks the attributes up for the path with that prefix cut off; fixed in later git)");
+    }
     None
 }
 
@@ -781,6 +784,9 @@ fn corpus() -> Vec<(&'static str, Scenario, Vec<Vec<&'static str>>)> {
             vec![":(exclude)*.c", "a"], vec![":(attr:lang=c)", ":!a"], vec![":(exclude,attr:-lang)a", "a"],
             vec!["e"], vec!["e/"], vec!["e/.x"], vec![":(literal)d*"], vec![":(literal)d*/"], vec!["q p"], vec!["q*"],
             vec![":(attr:lang=c,attr:doc)x"], vec![":(attr:)x"], vec![":(attr)x"], vec![":(icase,icase)F.c"], vec!["."], vec!["./"], vec!["a/.."], vec![".", ":!a"], vec!["./a"], vec!["a/./x"], vec!["a//x"], vec!["../x"], vec!["a/b/c", ":!a"], vec!["a/x", ":!"], vec![":(top)a/."], vec!["a/b/c", ":!x/y/c"], vec!["a/b/c", ":!a/b"], vec![":(prefix:0)a"], vec![":(,top)x"], vec![":(,,)x"], vec![":(attr:-lang=c)x"],
+            // round 2: the classes the proved domain (InDomain2) leaves out, and some it covers
+            vec!["/"], vec![":(attr:lang\tdoc)x"], vec![":(attr: )x"], vec![":(attr: ,attr:lang)x"], vec![":(attr:lang=c\\\\,d)x"], vec![":(attr:lang=c\\)x"],
+            vec![":(attr:lang=c\\,d -doc  !x,icase)A/"], vec![":(attr:la\\,ng)x"], vec![":(to\\,p)x"], vec!["a//b/../x/"], vec![":(attr:lang=c)./a/../a/"],
         ],
     )]
 }
